@@ -10173,7 +10173,9 @@ bool SoPlexBase<R>::writeBasisFile(const char* filename, const NameSet* rowNames
 {
    assert(filename != nullptr);
 
-   if(_isRealLPLoaded)
+   // without a basis (e.g. after a solve that ended SINGULAR) the solver may still hold a leftover basis; the branch below
+   // writes an empty basis file in that case, in agreement with hasBasis() and getBasis()
+   if(_isRealLPLoaded && _hasBasis)
       return _solver.writeBasisFile(filename, rowNames, colNames, cpxFormat);
    else
    {
